@@ -7,6 +7,7 @@ import (
 	"path/filepath"
 	"sort"
 	"strings"
+	"time"
 
 	"pgregory.net/rapid"
 
@@ -368,6 +369,58 @@ func (w *CWorld) Exec(a CAction) (res CExecResult, err error) {
 		r.Repo, r.Cache = repo, nrc
 		res.Reopened = true
 		res.Rebuilt = true
+	case "race":
+		// two requests of one long-lived process edit the same bug at the same moment (comment || labels), a few
+		// times in a row, with the schedule perturbed at the cache's lock boundaries; both are acknowledged
+		if len(ids) == 0 {
+			return res, nil
+		}
+		id := ids[a.Bug%len(ids)]
+		res.EditedBug = id
+		user, err := rc.GetUserIdentity()
+		if err != nil {
+			return res, err
+		}
+		// the first request is parked just before its K-th acquisition of a cache mutex (K = a.Size), the second one
+		// runs meanwhile (or waits for a lock the first holds), then the first goes on
+		mark, parked, release, stop := parkAt(a.Size)
+		first := make(chan struct{})
+		go func() {
+			defer close(first)
+			mark()
+			if bc, err := rc.Bugs().Resolve(entity.Id(id)); err == nil {
+				_, _, _ = bc.AddCommentRaw(user, int64(1_900_000+w.seq*10), "at the same moment", nil, nil)
+				_ = bc.CommitAsNeeded()
+			}
+		}()
+		select {
+		case <-parked:
+		case <-first:
+		case <-time.After(20 * time.Second):
+		}
+		second := make(chan struct{})
+		go func() {
+			defer close(second)
+			if bc, err := rc.Bugs().Resolve(entity.Id(id)); err == nil {
+				_, _, _ = bc.ChangeLabelsRaw(user, int64(1_900_001+w.seq*10), []string{fmt.Sprintf("race-%d", w.seq)}, nil, nil)
+				_ = bc.CommitAsNeeded()
+			}
+		}()
+		select {
+		case <-second:
+		case <-time.After(150 * time.Millisecond):
+		}
+		release()
+		for _, ch := range []chan struct{}{first, second} {
+			select {
+			case <-ch:
+			case <-time.After(30 * time.Second):
+				stop()
+				return res, &ExecError{"simultaneous-requests-never-return", "two requests on one bug, the first parked before its lock acquisition #" + fmt.Sprint(a.Size)}
+			}
+		}
+		stop()
+		w.seq++
 	case "dropindex":
 		// the search index directory is lost while the cache files survive (a partial restore, a cleaning tool, an
 		// interrupted rebuild): the next open has to notice
